@@ -50,17 +50,59 @@ def expand_closures(F, toks, depth=0):
     return out
 
 
+def sink_helpers(F):
+    """private functions of the archive module that do the file-system writing for extract_to_dir: called only from
+    extract_to_dir (or its closures), every path operand of their sinks derives from their own parameters only (no member-name
+    accessor inside).  Returns {helper path: (body, [sink paths], [index of the parameters that reach a sink path], has_copy)}"""
+    out = {}
+    root = 'adlt::utils::unzip::extract_to_dir'
+    for H in F.order:
+        if not H.path.startswith(UNZIP) or H.kind == 'closure' or H.path == root or H.crate != 'lib':
+            continue
+        sinks = [blk for blk in H.calls() if SINK.match(blk.term.callee.path)]
+        if not sinks:
+            continue
+        callers = set()
+        for b in F.order:
+            if b.crate in ('lib', 'bin'):
+                for blk in b.calls():
+                    if (blk.term.callee.resolved or blk.term.callee.path) == H.path:
+                        callers.add(b.closure_of or b.path)
+        if callers != {root}:
+            continue
+        hcfg = CFG(H)
+        hpr = Prov(hcfg)
+        pidx = set()
+        ok = True
+        names = {H.name_of(i) or 'arg%d' % i: i for i in range(1, H.arg_count + 1)}
+        for blk in sinks:
+            toks = expand_closures(F, hpr.operand(blk.term.args[0], at=blk.i))
+            if any(FORBIDDEN.search(c) or c.endswith('::enclosed_name') or c.endswith('Path::join') for c in calls_in(toks)):
+                ok = False          # the helper builds paths itself: not a mere writer
+            ps = params_in(toks)
+            if not ps or any(p not in names for p in ps):
+                ok = False
+            pidx |= set(names[p] for p in ps if p in names)
+        if ok:
+            has_copy = any(re.search(r'(::cancelable_copy|std::io::copy|io::Write::write_all)$', blk.term.callee.path) for blk in H.calls())
+            out[H.path] = (H, [blk.term.callee.path for blk in sinks], sorted(pidx), has_copy)
+    return out
+
+
 def run(F, chk):
     X1 = chk.rule('X1', 'every fs-mutating sink in extract_to_dir is fed from target_dir.join(enclosed_name | rename value); rename values come from file_stem; target_dir from a TempDir')
     X2 = chk.rule('X2', 'fs-mutating call sites in the archive module are exactly the reviewed ones')
     bodies = [b for b in F.order if b.path.startswith(UNZIP) or (b.closure_of or '').startswith(UNZIP)]
     X2.floor('bodies of the archive module', len(bodies), 20)
     found = {}
+    helpers = sink_helpers(F)
     for b in bodies:
         for blk in b.calls():
             p = blk.term.callee.path
             if SINK.match(p):
                 root = b.closure_of or b.path
+                if root in helpers:
+                    root = 'adlt::utils::unzip::extract_to_dir'      # a mere writer called only from there: its sites are extract_to_dir's
                 found.setdefault(root, {}).setdefault(p, []).append((b, blk))
     X2.sites += sum(len(v) for d in found.values() for v in d.values())
     for root, d in sorted(found.items()):
@@ -87,11 +129,20 @@ def run(F, chk):
     n = 0
     for blk in ex.calls():
         p = blk.term.callee.path
-        if not SINK.match(p):
+        hp = blk.term.callee.resolved or p
+        if hp in helpers:
+            # the writer helper: the arguments that reach its sinks are the operands to confine
+            H_, hsinks, pidx, _hc = helpers[hp]
+            n += len(hsinks) - 1
+            toks_h = set()
+            for i_ in pidx:
+                if i_ - 1 < len(blk.term.args):
+                    toks_h |= pr.operand(blk.term.args[i_ - 1], at=blk.i)
+        elif not SINK.match(p):
             continue
         n += 1
         X1.sites += 1
-        toks = expand_closures(F, pr.operand(blk.term.args[0], at=blk.i))
+        toks = expand_closures(F, toks_h if hp in helpers else pr.operand(blk.term.args[0], at=blk.i))
         calls = calls_in(toks)
         params = params_in(toks)
         bad = [c for c in calls if FORBIDDEN.search(c)]
@@ -228,7 +279,9 @@ def check_reported_means_copied(F, X11):
         X11.violation(('anchor-lost', 'zip member loop'), 'no loop around ZipArchive::by_index found in extract_to_dir')
         return
     lb = min(member_loops, key=len)
-    copies = [blk.i for blk in b.calls() if blk.i in lb and re.search(r'(::cancelable_copy|std::io::copy|io::Write::write_all)$', blk.term.callee.path)]
+    _helpers = sink_helpers(F)
+    copies = [blk.i for blk in b.calls() if blk.i in lb and (re.search(r'(::cancelable_copy|std::io::copy|io::Write::write_all)$', blk.term.callee.path)
+                                                            or ((blk.term.callee.resolved or blk.term.callee.path) in _helpers and _helpers[blk.term.callee.resolved or blk.term.callee.path][3]))]
     pushes = []
     for blk in b.calls():
         t = blk.term
@@ -724,7 +777,9 @@ def check_member_written_only_if_selected(F, X9):
                 if selective_predicate(F, H):
                     any_blocks[blk.i] = H.path
                     X9.fn(H.path)
-    sinks = [blk.i for blk in b.calls() if re.search(r'^std::fs::(File::create|create_dir_all|create_dir|write)$', blk.term.callee.path) and any(blk.i in lb for lb in loops.values())]
+    _helpers = sink_helpers(F)
+    sinks = [blk.i for blk in b.calls() if (re.search(r'^std::fs::(File::create|create_dir_all|create_dir|write)$', blk.term.callee.path) or (blk.term.callee.resolved or blk.term.callee.path) in _helpers)
+             and any(blk.i in lb for lb in loops.values())]
     X9.floor('fs-writing calls inside the member loops of extract_to_dir', len(sinks), 2)
     X9.floor('membership tests in extract_to_dir', len(any_blocks), 1)
     heads = set(h for h, lb in loops.items() if any(a in lb for a in any_blocks))
